@@ -36,7 +36,8 @@ NOTES = (
 	"functions compiled from /repo's current working tree; CBMC+cadical decide each assertion for all values of the "
 	"symbolic inputs within the stated bounds (unwinding assertions on). Exit 2 = inconclusive (timeout, memory, "
 	"unsatisfied cover, non-reproducing counter-example); it is never reported as a pass. The driver loop of "
-	"Value::parse_in (src/parse/value.rs) and whole-document parsing are outside every claim (DESIGN.md §4 S2)."
+	"Value::parse_in (src/parse/value.rs), which CBMC cannot finish, is decided by a second solver-based engine: symbolic execution of its "
+	"MIR (compiler dump of the current tree) with z3 over contract models of its callees, for all documents up to a length bound (drv/, DESIGN.md §0)."
 )
 
 # Properties not claimed. Kept current: an id is dropped from this table when a
@@ -193,7 +194,7 @@ P0 = [H("parse::verif::p0_position_advances_by_source_length", "in", "quick", 60
 
 def DRV(tier, max_n, prefix_n, cap):
 	h = H("drv::documents_n%d_prefix%d" % (max_n, prefix_n), "mir", tier, cap,
-	      "every character array of length <= %d (each character any Unicode scalar value except the backslash), and every array of %d such characters appended to each of 18 concrete structural prefixes (drv/drvcheck.py PREFIXES); "
+	      "every character array of length <= %d (each character any Unicode scalar value except the backslash), and every array of %d such characters appended to each of 20 concrete structural prefixes (drv/drvcheck.py PREFIXES); "
 	      "z3 decides the feasibility of every branch on a character and provides the counter-example characters" % (max_n, prefix_n),
 	      "N <= %d, prefix continuations <= %d; no escapes (no backslash); strict options" % (max_n, prefix_n), gb=2.0)
 	h["max_n"] = max_n
@@ -228,8 +229,9 @@ def names(prefix, ns):
 
 
 _OUTSIDE_PARSE = [
-	"the driver loop of Value::parse_in (src/parse/value.rs: stack machine composing the fragment parsers, root trailing-garbage check, closing of entry fragments, pushing items/entries in order): not decided by this technique (DESIGN.md §4 S2); a change confined to value.rs is not detected",
-	"whole documents; agreement of the nine entry points (one-line wrappers around parse_in; executed here: Parser::new/new_with + parse_in, and parse_slice through the `null` unit)",
+	"whole documents beyond the driver check's bound (longer than 7 (quick) / 9 (thorough) characters and not a <= 5 / 7 character continuation of one of the 20 structural prefixes), documents containing escapes at document level (escapes are decided at unit level), lenient options at document level",
+	"the composition argument between the two engines: the Kani harnesses decide real unit == reference unit within their bounds; the driver check decides (real driver MIR composed with the reference units) == reference document recogniser; real units inside the real driver on one formula are not decided (CBMC does not finish on it, DESIGN.md section 0)",
+	"FromStr for Value and the agreement of the entry points on whole documents (the entry points are decided on the null / probe units)",
 	"lexemes longer than the stated per-unit bounds; strings/keys/numbers longer than 16 bytes (heap representation of smallvec)",
 ]
 _PARSE_FUNCS = ["parse::is_whitespace", "parse::Context::follows", "<bool as Parse>::parse_in", "<() as Parse>::parse_in",
@@ -242,7 +244,7 @@ _PARSE_ASSUME = ["parser pre-state: arbitrary byte offset <= 2^20 already consum
 PROPS["C01"] = dict(
 	design_ref="DESIGN.md §4 C01",
 	level_text="Bounded model checking of every unit the parser is composed of (whitespace/follow sets, literals, numbers in all four contexts, strings, array/object start/continue fragments, the byte-slice UTF-8 layer) against flat reference automata written from RFC 8259: for every character array within the bound the unit accepts iff the reference does, consumes exactly the lexeme, and leaves the look-ahead pending. Whole documents and the driver loop are outside the claim.",
-	level_note="Unit-level claim: the composition of the units by the 90-line driver loop in src/parse/value.rs is read-only, not decided. References are table/automaton code independent of the crate's nested matches; trusted.",
+	level_note="Two engines: Kani/CBMC for each unit against its reference automaton; MIR symbolic execution + z3 for the driver loop composed with those reference units against a document-level reference. References are table/automaton code independent of the crate's nested matches; trusted.",
 	functions=_PARSE_FUNCS, bounds="literals: <= 6 chars; numbers: <= 6 (quick) / 8 (thorough) chars; strings: <= 4 (quick) / 5 (thorough) fully symbolic chars, 6-8 chars over a 12-character alphabet (thorough); fragments: <= 4 fully symbolic chars plus shaped key inputs; byte input: <= 5 bytes",
 	outside=_OUTSIDE_PARSE, stubs=[STUB_GROW], assumptions=_PARSE_ASSUME,
 	harnesses=L1 + L2 + pick(L3, names("l3_number_n", range(0, 7)), "rest") + pick(L4, names("l4_string_n", range(0, 5)), "rest")
@@ -252,9 +254,9 @@ PROPS["C01"] = dict(
 PROPS["C02"] = dict(
 	design_ref="DESIGN.md §4 C02",
 	level_text="Bounded model checking of the decoding done by each lexical unit: every \\uXXXX escape (all 65,536 code units, all spellings), every pair of escapes (all 2^32 digit combinations: surrogate pairs combine into exactly one scalar), every raw scalar value, every two-character escape, number spellings kept byte-for-byte, literals mapped to null/true/false, keys decoded like strings.",
-	level_note="Scalars and keys only: that items and entries are pushed in source order with duplicates preserved is done by the driver loop (outside the claim); Object::push itself is C06.",
+	level_note="Scalars and keys at unit level (Kani); that items and entries are pushed in source order with duplicates preserved, each value landing in its own slot, is decided by the driver check (MIR symbolic execution, value tree compared with the reference) for documents up to the length bound; Object::push itself is C06.",
 	functions=_PARSE_FUNCS, bounds="strings: one or two escapes / up to 4 fully symbolic characters; numbers: <= 6 chars; keys: 1 character of any UTF-8 length",
-	outside=_OUTSIDE_PARSE + ["order of array items / object entries (driver loop)"], stubs=[STUB_GROW], assumptions=_PARSE_ASSUME,
+	outside=_OUTSIDE_PARSE, stubs=[STUB_GROW], assumptions=_PARSE_ASSUME,
 	harnesses=D1 + pick(SH, ["c12_r", "c12_e", "c12_rr", "c12_hl"]) + pick(L4, names("l4_string_n", (2, 3)), ["l4_string_n4"])
 	+ pick(L3, names("l3_number_n", (1, 3, 5, 6)), ["l3_number_n8"]) + pick(L2, ["l2_bool_n4", "l2_bool_n5", "l2_null_n4"])
 	+ pick(S1, ["s1_object_start_shaped", "s1_object_continue_shaped"]),
@@ -263,9 +265,9 @@ PROPS["C02"] = dict(
 PROPS["C05"] = dict(
 	design_ref="DESIGN.md §4 C05",
 	level_text="Bounded model checking of the code-map effect of every unit: a scalar records exactly one entry (start offset, end offset in BYTES, volume 1); array/object start reserve the container entry (and for objects the entry and key entries, in pre-order, the key entry closed with the key's span); continue-fragments close the container with volume = number of entries recorded since it was opened; all for an arbitrary base offset and multi-byte characters.",
-	level_note="Per fragment kind. The closing of *entry* fragments after their value and the pre-order composition over a whole document are done by the driver loop: outside the claim.",
+	level_note="Per fragment kind at unit level (Kani); the closing of entry fragments after their value and the pre-order composition over a whole document are decided by the driver check (MIR symbolic execution: the complete code map is compared with the reference's) for documents up to the length bound.",
 	functions=_PARSE_FUNCS, bounds="as C01 units; base offset <= 2^20; 1..=3 pre-existing code-map entries",
-	outside=_OUTSIDE_PARSE + ["closing of object-entry fragments (value.rs:157) and whole-map pre-order/volume consistency"], stubs=[STUB_GROW], assumptions=_PARSE_ASSUME,
+	outside=_OUTSIDE_PARSE, stubs=[STUB_GROW], assumptions=_PARSE_ASSUME,
 	harnesses=pick(S1, [h["name"].split("::")[-1] for h in S1]) + pick(L2, ["l2_bool_n4", "l2_bool_n5", "l2_null_n4"])
 	+ pick(L3, names("l3_number_n", (1, 3, 5)), ["l3_number_n7"]) + pick(L4, names("l4_string_n", (2, 3)), ["l4_string_n4"]) + pick(SH, ["c12_rr", "c12_h", "c12_hr"]) + P0
 	+ pick(EP, ["ep_null_parse_str", "ep_null_parse_infallible"], "rest"),
@@ -274,7 +276,7 @@ PROPS["C05"] = dict(
 PROPS["C07"] = dict(
 	design_ref="DESIGN.md §4 C07",
 	level_text="Bounded model checking of the error reported by every unit: on rejection the error is Unexpected(p, c) with p the byte length of the longest prefix the reference automaton can still extend and c the character there (None exactly at end of input); surrogate errors carry the offending code units and a span inside the offending escapes; ill-formed UTF-8 in byte input is reported at the first ill-formed sequence unless a syntax error lies strictly before it.",
-	level_note="Unit-level: the threading of positions through the driver loop and the root trailing-garbage error are outside the claim. Surrogate-error spans are required to lie within the offending escape(s) up to the element that revealed the problem, not at an exact offset.",
+	level_note="Unit level (Kani) plus the driver check (MIR symbolic execution): error offset and character of every rejected document up to the length bound, including the root trailing-garbage error. Surrogate-error spans are required to lie within the offending escape(s) up to the element that revealed the problem, not at an exact offset.",
 	functions=_PARSE_FUNCS, bounds="as C01 units",
 	outside=_OUTSIDE_PARSE, stubs=[STUB_GROW], assumptions=_PARSE_ASSUME,
 	harnesses=L2 + pick(L3, names("l3_number_n", range(0, 7)), "rest") + pick(L4, names("l4_string_n", range(0, 5)), "rest") + pick(L4A, [], "rest")
@@ -432,3 +434,21 @@ for _p in ("C01", "C02", "C05", "C07"):
 	PROPS[_p]["harnesses"] = PROPS[_p]["harnesses"] + DRVQ + DRVT
 	PROPS[_p]["functions"] = PROPS[_p]["functions"] + _DRV_FUNCS
 	PROPS[_p]["assumptions"] = PROPS[_p]["assumptions"] + _DRV_ASSUME
+
+# ---------------------------------------------------------------------------
+# the Object methods (src/object/mod.rs) by symbolic execution of their MIR with symbolic keys (drv/objcheck.py)
+def OBJ(tier, depth, cap):
+	h = H("obj::histories_depth%d" % depth, "mir", tier, cap,
+	      "every history of <= %d operations from the empty object over push / push_front / remove_at(i) / insert / insert_front / remove(key) / remove_unique / sort, removal iterators pulled 0, 1 or 3 times before being dropped; "
+	      "KEYS SYMBOLIC (z3 integers over an unbounded universe: equalities and, for sort, order decided lazily by the solver)" % depth,
+	      "histories of <= %d operations (objects of <= %d entries)" % (depth, depth), gb=2.0)
+	h["tool"] = "objcheck"
+	h["depth"] = depth
+	return h
+
+
+PROPS["C06"]["harnesses"] = PROPS["C06"]["harnesses"] + [OBJ("quick", 3, 900), OBJ("thorough", 5, 7200)]
+PROPS["C06"]["functions"] += ["Object::{push,push_entry,push_front,push_entry_front,remove_at,insert,insert_front,remove,remove_unique,sort,index_of,redundant_index_of} and the three removal iterators' next/Drop (from MIR)"]
+PROPS["C06"]["assumptions"] = PROPS["C06"]["assumptions"] + [
+	"Object-level check: Vec<Entry> and IndexMap are contract models (the IndexMap model is the bucket semantics of src/object/index_map.rs that the Kani harnesses I1/I2 establish for the real code, defined for every state including stale ones); "
+	"std's sort_by and the derived ordering of Entry are trusted (entries are sorted by (key, value) in the model); a sample of the explored histories and every counter-example are replayed on the REAL Object (native helper)"]
